@@ -335,6 +335,8 @@ def shard(ctx, shard_i, n):
     if shard_i == 0:
         wrapper_reuse(G, ctx)
         uninterpreted_calls(G, ctx)
+        import interp_tie
+        interp_tie.run_state(ctx, 30 if ctx.thorough else 10)
         for p in FIXED:
             check_prog(G, ctx, p)
     for _ in range(n):
